@@ -191,7 +191,7 @@ var (
 	flagReplay  = flag.String("replaydir", "/verif/replay/out", "directory for counterexample files")
 	flagV       = flag.Bool("v", false, "verbose")
 	flagNoRep   = flag.Bool("noreplay", false, "skip native replay")
-	flagTags    = flag.String("tags", "purego", "build tags for analysis")
+	flagTags    = flag.String("tags", "purego,math_big_pure_go", "build tags for analysis")
 )
 
 func main() {
@@ -428,18 +428,18 @@ func cmdCheck() int {
 				// try alternative models of the same failure (other paths), input-only ones first
 				sort.SliceStable(f.Alts, func(i, j int) bool { return !f.Alts[i].UFDep && f.Alts[j].UFDep })
 				for _, a := range f.Alts {
-					if st == "confirmed" {
+					if strings.HasPrefix(st, "confirmed") {
 						break
 					}
 					writeReplayFile(file, h, a)
 					st2 := nativeReplay(file, h, a, ovDecls)
 					nReplayed++
-					if st2 == "confirmed" {
+					if strings.HasPrefix(st2, "confirmed") {
 						st = st2
 						f.Model, f.Lens, f.Path = a.Model, a.Lens, a.Path
 					}
 				}
-				if st != "confirmed" {
+				if !strings.HasPrefix(st, "confirmed") {
 					writeReplayFile(file, h, f)
 				}
 				f.Status = st
@@ -648,6 +648,9 @@ func nativeReplay(file string, h harnessDecl, f *Finding, ovDecls []harnessDecl)
 	case "assert":
 		if strings.Contains(out, "ZZ-ASSERT-FAILED: "+f.Label) {
 			return "confirmed"
+		}
+		if strings.Contains(out, "ZZ-ASSERT-FAILED: ") {
+			return "confirmed (an earlier assertion of the same run fails first natively)"
 		}
 		if strings.Contains(out, "ZZ-MODEL-ONLY") {
 			return "model-level"
